@@ -77,22 +77,28 @@ fn den_attrs(attrs: &[TAttr]) -> Vec<(String, String)> {
             _ => {}
         }
     }
-    let mut toks: Vec<String> = vec![];
+    // the class value: the pieces joined by spaces, trimmed (leptos trims it with str::trim on both paths
+    // since fix-c18-3), then read as the DOM reads it (ASCII-whitespace separated tokens)
+    let mut cls = String::new();
     for a in attrs {
         if let TAttr::Cls(_, v) = a {
-            toks.extend(class_tokens(v));
+            cls.push(' ');
+            cls.push_str(v);
         }
     }
     for a in attrs {
         if let TAttr::ClsToggle(n, true) = a {
-            toks.extend(class_tokens(n));
+            cls.push(' ');
+            cls.push_str(n);
         }
     }
     for a in attrs {
         if let TAttr::ClsTuple(n, true) = a {
-            toks.extend(class_tokens(n));
+            cls.push(' ');
+            cls.push_str(n);
         }
     }
+    let toks = class_tokens(cls.trim());
     if !toks.is_empty() {
         out.push(("class".into(), toks.join(" ")));
     }
@@ -115,21 +121,23 @@ fn den_attrs(attrs: &[TAttr]) -> Vec<(String, String)> {
     out
 }
 
-fn den(nodes: &[Tmpl], out: &mut Vec<Tree>) {
+/// `esc`: the strings here are children of an element that escapes its children; there an empty string
+/// stands for one space (leptos keeps a text node for it, on both paths since fix-c18-4)
+fn den(nodes: &[Tmpl], esc: bool, out: &mut Vec<Tree>) {
     for n in nodes {
         match n {
-            Tmpl::Text(s, _) | Tmpl::Block(s) => push_text(out, s),
+            Tmpl::Text(s, _) | Tmpl::Block(s) => push_text(out, if esc && s.is_empty() { " " } else { s }),
             Tmpl::Elem(tag, attrs, kids) => {
                 let mut k = vec![];
                 if !VOID.contains(&tag.as_str()) {
-                    den(kids, &mut k);
+                    den(kids, !is_raw_tag(tag), &mut k);
                 }
                 out.push(Tree::Elem { tag: ren(tag), attrs: den_attrs(attrs), kids: k });
             }
-            Tmpl::Frag(kids) => den(kids, out),
+            Tmpl::Frag(kids) => den(kids, esc, out),
             Tmpl::Comp(kids) => {
                 let mut k = vec![];
-                den(kids, &mut k);
+                den(kids, true, &mut k);
                 out.push(Tree::Elem { tag: "section".into(), attrs: vec![], kids: k });
             }
         }
@@ -138,7 +146,7 @@ fn den(nodes: &[Tmpl], out: &mut Vec<Tree>) {
 
 fn denote(nodes: &[Tmpl]) -> Vec<Tree> {
     let mut out = vec![];
-    den(nodes, &mut out);
+    den(nodes, true, &mut out);
     out
 }
 
@@ -370,7 +378,7 @@ fn node_tags(nodes: &[Tmpl], top: bool, in_inert: bool, escape: bool, t: &mut BT
                     t.insert("hostile".into());
                 }
                 if s.is_empty() && !in_inert && escape {
-                    t.insert("empty-text".into());
+                    t.insert("empty-str".into());
                 }
             }
             Tmpl::Elem(tag, attrs, kids) => {
@@ -392,7 +400,7 @@ fn node_tags(nodes: &[Tmpl], top: bool, in_inert: bool, escape: bool, t: &mut BT
                         && inert
                         && kids.iter().any(|k| matches!(k, Tmpl::Text(s, _) if s.contains(|c| matches!(c, '<' | '>' | '&'))))
                     {
-                        t.insert("noscript-inert".into());
+                        t.insert("noscript-static".into());
                     }
                 }
                 for a in attrs {
@@ -412,7 +420,7 @@ fn node_tags(nodes: &[Tmpl], top: bool, in_inert: bool, escape: bool, t: &mut BT
                                 t.insert("hostile".into());
                             }
                             if !inert && v.chars().any(uni_ws_only) {
-                                t.insert("class-unicode-ws".into());
+                                t.insert("class-uniws".into());
                             }
                         }
                         TAttr::Style(_, v) | TAttr::StyleKV(_, _, v) => {
@@ -508,7 +516,7 @@ fn gen_value(r: &mut Rng, k: HoleKind) -> String {
         },
         HoleKind::Text | HoleKind::Attr => match r.below(20) {
             0 => {
-                // the empty string: an attribute value like any other; as text it is class `empty-text`
+                // the empty string: an attribute value like any other; as text it is rendered as one space
                 if k == HoleKind::Attr || r.chance(1, 2) {
                 } else {
                     s.push(' ');
